@@ -52,3 +52,95 @@ Definition read_yaml (t : value) : res cval := decode_map t.
 Definition read_hcl (root : list hfield) (hv : list hval) : res cval := decode_map (marshal_by_tags root hv).
 
 End Frontends.
+
+(* ---- the constructor of the assert/response postprocessor (import/import.go NewAssertResponsePostprocessor ->
+   postprocessor.AssertResponse.Validate): a `size` must have a non-negative `val` and one of six operators.  It runs
+   inside the common decoder (plugin construction), on whatever tree the front-end hands over; read here off the
+   tree with the decoder's own key lookup. *)
+Definition k_reqs : str := [114;101;113;117;101;115;116;115].
+Definition k_postprocessors : str := [112;111;115;116;112;114;111;99;101;115;115;111;114;115].
+Definition k_size : str := [115;105;122;101].
+Definition k_val : str := [118;97;108].
+Definition k_op : str := [111;112].
+Definition s_assert_response : str := [97;115;115;101;114;116;47;114;101;115;112;111;110;115;101].
+Definition size_ops : list str := [[101;113]; [61]; [108;116]; [60]; [103;116]; [62]].   (* eq = lt < gt > *)
+
+Definition tree_get (k : str) (kvs : list (str * value)) : option value := option_map snd (find_key k kvs).
+
+Definition size_ok (sz : value) : bool :=
+  match sz with
+  | VMap kvs =>
+      match tree_get k_val kvs with Some (VInt z) => Z.leb 0 z | _ => true end &&
+      match tree_get k_op kvs with
+      | Some (VStr s) => mem_str s size_ops
+      | Some VNull | None => false        (* Op == "" is not an operator *)
+      | Some _ => true                    (* left to the decoder *)
+      end
+  | _ => true
+  end.
+
+Definition post_ok (p : value) : bool :=
+  match p with
+  | VMap kvs =>
+      match tree_get s_type kvs with
+      | Some (VStr t) =>
+          if str_eqb t s_assert_response
+          then match tree_get k_size kvs with Some sz => size_ok sz | None => true end
+          else true
+      | _ => true
+      end
+  | _ => true
+  end.
+
+Definition request_ok (r : value) : bool :=
+  match r with
+  | VMap kvs => match tree_get k_postprocessors kvs with Some (VList l) => forallb post_ok l | _ => true end
+  | _ => true
+  end.
+
+Definition ctor_checks (t : value) : bool :=
+  match t with
+  | VMap kvs => match tree_get k_reqs kvs with Some (VList l) => forallb request_ok l | _ => true end
+  | _ => true
+  end.
+
+(* the decoder with that constructor *)
+Definition with_ctor (dv : value -> res cval) (t : value) : res cval :=
+  if ctor_checks t then dv t else match dv t with Ok _ => Err ECtor | r => r end.
+
+(* ---- format selection (config.go ReadAmmoConfig): by the lower-cased base name of the file ------------------------ *)
+Inductive format := FHcl | FYaml.
+
+Definition ext_hcl : str := [46;104;99;108].
+Definition ext_yaml : str := [46;121;97;109;108].
+Definition ext_yml : str := [46;121;109;108].
+
+Definition has_suffix (s suf : str) : bool :=
+  match prefix_of (rev suf) (rev s) with Some _ => true | None => false end.
+
+(* afero's FileInfo.Name(): what follows the last '/' *)
+Fixpoint base_name (acc : str) (s : str) : str :=
+  match s with
+  | [] => acc
+  | c :: r => if c =? 47 then base_name [] r else base_name (acc ++ [c]) r
+  end.
+
+Definition format_of (name : str) : option format :=
+  let l := lower (base_name [] name) in
+  if has_suffix l ext_hcl then Some FHcl
+  else if has_suffix l ext_yaml || has_suffix l ext_yml then Some FYaml
+  else None.
+
+(* ReadAmmoConfig on a file that exists: the description as the YAML reader sees it (tree) / as gohcl fills it (hv);
+   a file of another extension is refused *)
+Definition read_file (dv : value -> res cval) (sch : schema) (root : list hfield)
+           (name : str) (t : value) (hv : list hval) : res cval :=
+  match name with
+  | [] => Err EValidate
+  | _ =>
+      match format_of name with
+      | Some FHcl => read_hcl dv sch root hv
+      | Some FYaml => read_yaml dv sch t
+      | None => Err EUnsupported
+      end
+  end.
